@@ -732,7 +732,9 @@ def check_exec(ctx):
         if (front and top == 'front') or (back and top == 'back'):
             ctx.holds(rule, fi, st, 'operands reach the operator in the order they were compiled (left, right)', lp.lineno, clause='d')
         elif front or back:
-            ctx.undecided(rule, fi, st, 'the operators get their operands in the compiled order, but the initial arguments are stacked with the other end up', lp.lineno, clause='d')
+            # the initial arguments would be stacked with the other end up -- they are always empty:
+            # the one caller, compile_expr_into_callable, is checked below to pass an empty sequence
+            ctx.holds(rule, fi, st, 'operands reach the operator in the order they were compiled (left, right); the order of the initial arguments is immaterial (always empty)', lp.lineno, clause='d')
         else:
             ctx.violation(rule, fi, st, 'push side, pop slice and operand order are not mutually consistent: binary operators receive their operands swapped or stale values', lp.lineno, clause='d')
         if leaf == '%s(pkt, *vargs, **kargs)' % OP:
